@@ -379,6 +379,7 @@ typedef struct {
 	int seeder_mode;          /* 1 fixed (default), 2 fail, 3 none, 0 untouched */
 	int inject_entropy;       /* call br_ssl_engine_inject_entropy(seed) before reset */
 	int reuse_ctx;            /* do not re-initialise the context (resumption on same client) */
+	const unsigned char *inject_bytes;   /* with inject_entropy: 32 bytes to inject instead of seed[] */
 	int mismatch_key;         /* server: private key that does not match the chain; client: same for the client certificate */
 	/* hooks for property-specific configuration just before reset */
 	void (*pre_reset)(void *ep, void *arg);
@@ -563,7 +564,7 @@ tp_ep_start(tp_ep *ep, const tp_cfg *cfg)
 	memcpy(br_verif_seed, cfg->seed, 32);
 #endif
 	if (cfg->inject_entropy) {
-		br_ssl_engine_inject_entropy(ep->eng, cfg->seed, 32);
+		br_ssl_engine_inject_entropy(ep->eng, cfg->inject_bytes ? cfg->inject_bytes : cfg->seed, 32);
 	}
 	if (cfg->role == 0) {
 		const char *sni = cfg->sni == NULL ? "localhost" : (cfg->sni[0] ? cfg->sni : NULL);
